@@ -335,14 +335,19 @@ void rearm_resetter(void*)
     gsim::ev_wait(50);
     for (int y = gsim::choose(3); y > 0; y--) gsim::yield();
     S->tv->reset();
+    gsim::ev_set(51);
 }
 void rearm_activator(void*)
 {
     gsim::ev_wait(50);
-    int spins = 0;
+    int after_reset = 0;
     while (!S->tv->activate()) {
+        // activate() is refused while the variable is active; once reset() has returned
+        // the variable is inactive and it must succeed
+        if (gsim::ev_isset(51) && ++after_reset > 3)
+            gsim::fail("active_after_reset", "activate() is still refused (variable active) after "
+                       "reset() has returned");
         gsim::yield();
-        if (++spins > 2000) gsim::fail("harness", "re-arm did not succeed");
     }
 }
 void run_rearm()
